@@ -9,7 +9,7 @@ from ..cfg import CFG
 from ..frontend import AnalysisError, walk_function
 from ..report import norm_text
 from ..sibling import diff_blocks
-from ..witness import witness, twin
+from ..witness import witness, twin, repair
 from .c16 import _parity
 
 LEVEL = "other"
@@ -29,6 +29,7 @@ EXPLANATION = (
     "R-C06-7: helpers duplicated across the two law classes are identical, each secondary-branch helper is its primary "
     "sibling under the Masing substitution (strain -> delta_strain, ...), and the two copies of the base class agree.")
 EXPLANATION += (" R-C06-8: the fprime handed to Newton equals d func / d unknown in normal form (symbolic differentiation, calls on the cached Ramberg-Osgood object evaluated on that class with the law's E, K, n; positive branch, the negative one follows from parity and the pole guards); every where= mask of a quotient excludes exactly its pole; the Ramberg-Osgood object is built from (E, K, n) in that order.")
+EXPLANATION += (" R-C06-9: the forward residuals handed to the solver are defined at zero load (zeroness abstract interpretation over the residual, its helpers and the Ramberg-Osgood object: no division whose divisor vanishes identically when the load is zero).")
 ASSUMPTIONS = ["scipy.optimize.newton(func, x0, fprime, args, rtol, tol, full_output) semantics",
                "RambergOsgood.strain/delta_strain are odd (C16)"]
 
@@ -37,12 +38,50 @@ DIRS = {"stress": ("stress", "load"), "load": ("load", "stress"),
 
 
 def run(ctx):
-    for r in (_wiring, _inverse, _convergence, _parity_rule, _cache, _siblings, _derivatives):
+    for r in (_wiring, _inverse, _convergence, _parity_rule, _cache, _siblings, _derivatives, _zero_load):
         ctx.attempt(r)
 
 
 RO_ATTR = "_ramberg_osgood_relation"
 RO = "pylife.materiallaws.rambgood:RambergOsgood"
+
+
+def _zero_load(ctx):
+    """R-C06-9: zero is an admissible load (and load range): the laws are odd, so the answer there is zero.  The forward
+    residuals handed to the solver must be defined at zero load: evaluated with the given load identically zero and the unknown
+    stress arbitrary (zeroness domain, following the helper methods and the Ramberg-Osgood object), no division may have a divisor
+    that vanishes identically.  Otherwise the residual is NaN, which scipy's array solver reports as converged: the entry comes
+    back as NaN without any error (a scalar zero raises instead)."""
+    from ..zeroness import Zeroness, Z, ANY
+    prog = ctx.prog
+    ctx.rule("R-C06-9", floor=4, what="forward residuals are defined at zero load (no divisor vanishing identically there)")
+    roc = prog.cls(RO)
+    for ck in (EN, SB):
+        ci = prog.cls(ck)
+        for mname in ("stress", "stress_secondary_branch"):
+            f = prog.lookup_method(ci, mname)
+            calls = _newton_calls(f)
+            if len(calls) != 1:
+                raise AnalysisError("%s.%s: expected one solver call" % (ci.name, mname))
+            func = _kw(calls[0], "func", 0)
+            res = prog.lookup_method(ci, func.attr) if is_self_attr(func) else None
+            if res is None:
+                raise AnalysisError("%s.%s: residual not found" % (ci.name, mname))
+            zn = Zeroness(prog, nonzero_attrs={"_E", "_K", "_n", "_K_p", "E", "K", "n", "K_p"}, attr_classes={RO_ATTR: roc})
+            zn.call(ci, res, [ANY, Z])
+            seen = set()
+            for fi2, node, text in zn.events:
+                k = (fi2.key, norm_text(node))
+                if k in seen:
+                    continue
+                seen.add(k)
+                ctx.violated(res, res.node, "%s.%s (residual of %s): at zero load %s in %s: the residual is NaN there, the array "
+                             "solver reports NaN entries as converged and %s returns NaN for a zero entry of the load array "
+                             "(the law is odd: the answer is 0)" % (ci.name, res.name, mname, text, fi2.name, mname),
+                             text="singular at zero load")
+                break
+            if not zn.events:
+                ctx.holds(res, res.node, "%s.%s: no divisor vanishes identically at zero load" % (ci.name, res.name))
 
 
 def _law_nf(prog, ci):
@@ -442,20 +481,19 @@ def _res_parity(prog, ci, name, known, depth=0):
 def _parity_rule(ctx):
     prog = ctx.prog
     ctx.rule("R-C06-5", floor=8, what="residual parity under (stress, load) -> (-stress, -load); start value odd")
-    want = {EN: "odd", SB: "even"}
     for ck in (EN, SB):
         ci = prog.cls(ck)
         known = {}
         for name in ("_stress_implicit", "_stress_secondary_implicit"):
             p = _res_parity(prog, ci, name, known)
             f = prog.lookup_method(ci, name)
-            if p == want[ck]:
+            if p in ("odd", "even"):       # either parity makes the root set mirror-symmetric (difference or quotient form)
                 ctx.holds(f, f.node, "%s.%s is %s: roots come in mirror pairs" % (ci.name, name, p))
             elif p is None:
                 raise AnalysisError("%s.%s: parity not derivable" % (ci.name, name))
             else:
-                ctx.violated(f, f.node, "%s.%s is %s under simultaneous negation of stress and load, expected %s: a sign or an "
-                             "abs() was dropped and the law is no longer odd" % (ci.name, name, p, want[ck]), text="%s parity %s" % (name, p))
+                ctx.violated(f, f.node, "%s.%s is %s under simultaneous negation of stress and load (neither odd nor even): a sign or "
+                             "an abs() was dropped and the law is no longer odd" % (ci.name, name, p), text="%s parity %s" % (name, p))
         for mname, (unknown, given) in DIRS.items():
             f = prog.lookup_method(ci, mname)
             c = _newton_calls(f)[0]
@@ -577,6 +615,27 @@ SP = "src/pylife/materiallaws/notch_approximation_law_seegerbeste.py"
 
 def variants():
     out = []
+
+    def sb_difference(name, expr):
+        def f_(tree):
+            f = find_func(tree, "SeegerBeste." + name)
+            f.body[-1].value = parse_expr(expr)
+            return True
+        return f_
+    def sb_both(tree):
+        return sb_difference("_stress_implicit", "self._ramberg_osgood_relation.strain(stress) - self._middle_term(stress, load) * "
+                             "self._neuber_strain(stress, load)")(tree) and \
+            sb_difference("_stress_secondary_implicit", "self._ramberg_osgood_relation.delta_strain(delta_stress) - "
+                          "self._middle_term_secondary(delta_stress, delta_load) * "
+                          "self._neuber_strain_secondary(delta_stress, delta_load)")(tree)
+    out.append(repair("both Seeger-Beste residuals as differences (regular at zero load)", SP, sb_both, "R-C06-9"))
+
+    def en_quotient(tree):
+        f = find_func(tree, "ExtendedNeuber._stress_implicit")
+        f.body[-1].value = parse_expr("self._ramberg_osgood_relation.strain(stress) / self._neuber_strain(stress, load) - 1")
+        return True
+    out.append(witness("extended Neuber residual as a quotient by the Neuber strain", NP, en_quotient, "R-C06-9"))
+
 
     def mask_positive_only(tree):
         f = find_func(tree, "ExtendedNeuber._d_stress_implicit")
